@@ -661,6 +661,21 @@ func runC04(w *World, r *Report) {
 	// the packet-in payload is decoded with the header kinds' size functions, which must not wrap
 	r.Rule("trailing", "decoders test the input length with lower bounds only", 60)
 	trailingRule(w, r)
+	// the packet-in payload is decoded by the frame decoder: its frame shapes (untagged, 802.1Q tag with any
+	// VID) and its payload demultiplexing are part of what the parser exposes (C09's rules, decoder side)
+	if spec, err := loadPacketLayout(); err == nil {
+		r.Rule("payload", "the frame decoder behind packet-in reads both frame shapes as specified and hands the payload to the decoder the ethertype / protocol number names", 8)
+		r2 := NewReport(r.Prop, r.Tier)
+		lanesEthernet(w, r2)
+		demuxRule(w, r2, spec)
+		for _, o := range r2.Obs {
+			if o.Rule == "demux" || strings.Contains(o.Instance, "dec") || o.Verdict != VOK {
+				o.Subject = o.Rule + ":" + o.Subject
+				o.Rule = "payload"
+				r.Add(o)
+			}
+		}
+	}
 	if spec, err := loadPacketLayout(); err == nil {
 		r.Rule("nowrap", "no size function of a packet-header kind (packet-in payload) computes a length in arithmetic narrower than 16 bits that the field ranges can overflow", 10)
 		nowrapSizes(w, r, spec)
